@@ -721,12 +721,16 @@ class _Run(object):
             self.viol("call-wrong-result", "an unrelated call between stream operations returned %.80r instead of %r" % (r, n))
 
     def op_hk(self):
-        if self.servertype == "multiplex":
-            # an application that drives the daemon from its own event loop calls daemon.events(<ready sockets>): a round in
-            # which nothing was ready is the multiplex server's documented way of getting its housekeeping done
-            self.D.events([])
-        else:
-            self.D._housekeeping()
+        try:
+            if self.servertype == "multiplex":
+                # an application that drives the daemon from its own event loop calls daemon.events(<ready sockets>): a round in
+                # which nothing was ready is the multiplex server's documented way of getting its housekeeping done
+                self.D.events([])
+            else:
+                self.D._housekeeping()
+        except Exception as x:
+            self.viol("housekeeping-raises", "housekeeping raised %r (in the daemon this ends the housekeeper thread / the multiplex request loop)" % (x,))
+            raise _Stop()
         for s in self.streams:
             why = self.expired_why(s)
             if why:
